@@ -171,3 +171,72 @@ func (p *vhAnyPager) Close() error                     { return nil }
 func (p *vhAnyPager) RLock() error                     { return nil }
 func (p *vhAnyPager) RUnlock() error                   { return nil }
 func (p *vhAnyPager) CheckReservedLock() (bool, error) { return false, nil }
+
+// Page stage: any 64 bytes as a b-tree page with at most 2 cells declared (the
+// per-cell work is the cell stage's; what is new here is the page header, the
+// cell-pointer array and the dispatch on the page type).
+//verif:unwind 12
+//verif:bounds 64 free bytes, cell count field <= 2 (assumed), any page type byte, page size 512
+func VH_C05_page() {
+	b := verifBytes(64)
+	verifAssume(b[3] == 0 && b[4] <= 2)
+	p, err := newBtree(b, false, 512)
+	if err == nil {
+		switch x := p.(type) {
+		case *tableLeaf:
+			for _, c := range x.cells {
+				vhCheckInvCell(c.payload, nil)
+			}
+		case *indexLeaf:
+			for _, c := range x.cells {
+				vhCheckInvCell(c, nil)
+			}
+		case *indexInterior:
+			for _, c := range x.cells {
+				vhCheckInvCell(c.payload, nil)
+			}
+		case *tableInterior:
+		default:
+			verifAssert(false, "newBtree returns one of the four page kinds")
+		}
+	}
+	verifReach("end")
+}
+
+// Traversal stage: child pointers are hostile. Every page number resolves to
+// the same interior page (a cycle through itself): the scan must end with an
+// error within a budget proportional to the recursion limit, not explore
+// (cells+1)^31 paths.
+//verif:steps 60000
+//verif:bounds one table-interior / index-interior page with 1 cell whose child pointers all resolve to that page itself; full scans, rowid lookup and from-key scan with symbolic keys
+func VH_C05_cyclic_children() {
+	e := vhNewEnv()
+	var err error
+	calls := 0
+	switch verifChoice(4) {
+	case 0:
+		self := &tableInterior{cells: []tableInteriorCell{{left: 2, key: verifInt64()}}, rightmost: 2}
+		e.db.btreeCache.set(2, self)
+		t := &Table{db: e.db, root: 2}
+		err = t.Scan(func(int64, Record) bool { calls++; return false })
+	case 1:
+		// rowid lookup through the cycle (any rowid, any separator)
+		self := &tableInterior{cells: []tableInteriorCell{{left: 2, key: verifInt64()}}, rightmost: 2}
+		e.db.btreeCache.set(2, self)
+		t := &Table{db: e.db, root: 2}
+		_, err = t.Rowid(verifInt64())
+	case 2:
+		// keyed index scan through the cycle
+		self := &indexInterior{cells: []indexInteriorCell{{left: 2, payload: vhRecEnt(vhEnt{k: verifInt64(), rowid: verifInt64()})}}, rightmost: 2}
+		e.db.btreeCache.set(2, self)
+		in := &Index{db: e.db, root: 2}
+		err = in.ScanMin(Key{{V: verifInt64()}}, func(Record) bool { calls++; return false })
+	default:
+		self := &indexInterior{cells: []indexInteriorCell{{left: 2, payload: vhRecEnt(vhEnt{k: verifInt64(), rowid: verifInt64()})}}, rightmost: 2}
+		e.db.btreeCache.set(2, self)
+		in := &Index{db: e.db, root: 2}
+		err = in.Scan(func(Record) bool { calls++; return false })
+	}
+	verifAssert(err != nil, "a cyclic tree is reported as an error")
+	verifReach("end")
+}
